@@ -559,6 +559,83 @@ func checkLoaderShape(rep *core.Report, r4 *core.RuleRun) {
 		return true
 	})
 	r4.Check(guardOK, name+":guard", storeStmt.Pos(), "store guarded by len(p) > 1", "store is not guarded by exactly 'entry has at least 2 items'")
+	// ... and by nothing else: every entry of the file with two items is stored. Any other condition between the head
+	// of the element loop and the store (an enclosing if/switch, or an earlier statement that can leave the iteration)
+	// makes the loaded table a subset of the file.
+	{
+		parent := map[ast.Node]ast.Node{}
+		var stack []ast.Node
+		ast.Inspect(ranges[1].Body, func(n ast.Node) bool {
+			if n == nil {
+				stack = stack[:len(stack)-1]
+				return true
+			}
+			if len(stack) > 0 {
+				parent[n] = stack[len(stack)-1]
+			}
+			stack = append(stack, n)
+			return true
+		})
+		isGuard := func(ifs *ast.IfStmt, viaBody bool) bool {
+			if viaBody {
+				return atLeast2(ifs.Cond, true)
+			}
+			return atLeast2(ifs.Cond, false)
+		}
+		leaves := func(n ast.Node) bool {
+			found := false
+			ast.Inspect(n, func(m ast.Node) bool {
+				switch x := m.(type) {
+				case *ast.FuncLit:
+					return false
+				case *ast.BranchStmt:
+					found = true
+					_ = x
+				case *ast.ReturnStmt:
+					found = true
+				case *ast.CallExpr:
+					if sel, ok := x.Fun.(*ast.SelectorExpr); ok && (sel.Sel.Name == "Fatal" || sel.Sel.Name == "Fatalf" || sel.Sel.Name == "Exit") {
+						found = true
+					}
+					if id, ok := x.Fun.(*ast.Ident); ok && id.Name == "panic" {
+						found = true
+					}
+				}
+				return !found
+			})
+			return found
+		}
+		other := ""
+		var child ast.Node = storeStmt
+		for cur := parent[storeStmt]; cur != nil; child, cur = cur, parent[cur] {
+			switch x := cur.(type) {
+			case *ast.IfStmt:
+				viaBody := child == ast.Node(x.Body)
+				if child == ast.Node(x.Cond) || child == ast.Node(x.Init) {
+					break
+				}
+				if !isGuard(x, viaBody) {
+					other = "the store is inside a condition other than the length test (" + rep.Prog.Pos(x.Pos()) + ")"
+				}
+			case *ast.SwitchStmt, *ast.TypeSwitchStmt, *ast.SelectStmt, *ast.ForStmt, *ast.RangeStmt:
+				other = "the store is inside another conditional construct (" + rep.Prog.Pos(cur.Pos()) + ")"
+			case *ast.BlockStmt:
+				for _, st := range x.List {
+					if st == child {
+						break
+					}
+					if ifs, ok := st.(*ast.IfStmt); ok && ifs.Else == nil && ifs.Init == nil && terminates(ifs.Body) && atLeast2(ifs.Cond, false) {
+						continue // the length guard in its early-exit form
+					}
+					if leaves(st) {
+						other = "an earlier statement can leave the iteration before the store (" + rep.Prog.Pos(st.Pos()) + ")"
+					}
+				}
+			}
+		}
+		r4.Check(other == "", name+":only-guard", storeStmt.Pos(), "nothing but the length test decides whether an entry is stored",
+			other+": entries of the shipped file that the built-in table has are dropped (or kept) on a condition the file format does not know, so the two models no longer agree")
+	}
 	// absent file => nil, and before any table replacement
 	fn := rep.Prog.Func("ipfix", loader.Name.Name)
 	absentOK := false
